@@ -40,7 +40,7 @@ def required_reach(tier):
 def bounds(tier):
     return {'types': 'all %d message struct definitions of the shipped dialect packages' % len(_state.get('msgs', [])),
             'values': 'every field value symbolic at once (each array element; enum fields over all 64 bits; floats as bit patterns)',
-            'strings': 'every string value of length 2 (bytes symbolic)' + (
+            'strings': 'every string value of length 2 (bytes symbolic); for messages with several strings: one string 3 bytes longer than its field at a time, the others 1 byte' + (
                 '; plus declared length + 1 for single-string messages up to char[32]' if tier == 'quick'
                 else '; lengths 0, 1, declared, declared+1 for single-string messages (<= 2 otherwise)'),
             'v2_truncation': 'trailing-zero classes: none / all zero / exactly one / (thorough: exactly two; unconstrained for messages <= 64 bytes)',
